@@ -256,6 +256,13 @@ func (m *Markdown) renderHTMLBlock(w io.Writer, n *ast.HTMLBlock, src []byte) er
 			return err
 		}
 	}
+	// a block of kind 1-5 (<script>, <pre>, <style>, <!-- …, <? …, <!X …, <![CDATA[ …) ends with a line of its own,
+	// which is not among Lines()
+	if n.HasClosure() {
+		if _, err := w.Write(n.ClosureLine.Value(src)); err != nil {
+			return err
+		}
+	}
 	return nil
 }
 
